@@ -369,6 +369,7 @@ where
         let (i, x, l) = &lits[(k * step).min(lits.len() - 1)];
         let src = format!("{}\nlet v : {} = {}\nv\n", HEADER, T::gtype(), l);
         let replay = json!({"type": name, "index": i, "op": "literal", "val": x.val()});
+        if dbg { eprintln!("lit {}", &src[HEADER.len()..]); }
         match gv::catch(|| vm.run_expr::<T>("c11_lit", &src)) {
             Ok(Ok((y, _))) => {
                 cx.out.count("op:literal-run_expr");
@@ -400,6 +401,7 @@ where
             let body: Vec<&str> = chunk.iter().map(|c| c.2.as_str()).collect();
             let src = format!("{}\nlet v : Array {} = [{}]\nv\n", HEADER, T::gtype(), body.join(", "));
             let replay = json!({"type": name, "index": chunk[0].0, "op": "literal-array"});
+            if dbg { eprintln!("lits {}", &src[HEADER.len()..]); }
             match gv::catch(|| vm.run_expr::<Vec<T>>("c11_lits", &src)) {
                 Ok(Ok((ys, _))) => {
                     cx.out.add("op:literal-in-array", chunk.len() as u64);
@@ -440,8 +442,123 @@ fn clip(s: &str) -> String {
     }
 }
 
+/// One `De` attempt (child process): `kind` = "ser-de" (De of what Ser pushed) or "push-de" (De of
+/// what Pushable pushed).
+fn de_attempt<T>(vm: &Thread, x: &T, kind: &str) -> String
+where
+    T: Marsh + Serialize + DeserializeOwned,
+    T::Type: Sized,
+{
+    let typ = T::make_type(vm);
+    let r = gv::catch(|| -> gluon::vm::Result<Result<gluon::vm::Result<T>, String>> {
+        let mut ctx = vm.current_context();
+        if kind == "ser-de" {
+            Ser(x.clone()).vm_push(&mut ctx)?;
+        } else {
+            x.clone().vm_push(&mut ctx)?;
+        }
+        let v = ctx.pop();
+        Ok(gv::catch(|| de::from_value::<T>(vm, (*v).clone(), &typ)))
+    });
+    match r {
+        Ok(Ok(r)) => match de_verdict(&r, x) {
+            Ok(()) => "ok".into(),
+            Err(w) => w,
+        },
+        Ok(Err(e)) => format!("push-error: {}", norm_err(&e.to_string())),
+        Err(p) => format!("push-panic: {}", norm_err(&p)),
+    }
+}
+
+/// Child: all De attempts of one type, one line each; `A` marks the attempt that is running.
+fn child_de_type<T>(vm: &Thread, t_idx: usize, cfg: &serde_json::Value)
+where
+    T: Marsh + Serialize + DeserializeOwned,
+    T::Type: Sized,
+{
+    use std::io::Write;
+    let start_t = cfg["start_t"].as_u64().unwrap() as usize;
+    let start_v = cfg["start_v"].as_u64().unwrap() as usize;
+    if t_idx < start_t {
+        return;
+    }
+    let name = type_name::<T>();
+    let mut r = Rng::new(cfg["seed"].as_u64().unwrap(), salt(&name));
+    let mut vals = T::boundaries();
+    for _ in 0..cfg["n"].as_u64().unwrap() {
+        vals.push(T::gen(&mut r));
+    }
+    let out = std::io::stdout();
+    for (i, x) in vals.iter().enumerate() {
+        if t_idx == start_t && i < start_v {
+            continue;
+        }
+        for kind in ["ser-de", "push-de"] {
+            let skip = cfg["skip"].as_array().unwrap().iter().any(|s| s[0].as_u64() == Some(t_idx as u64) && s[1].as_str() == Some(kind));
+            if skip {
+                continue;
+            }
+            let mut o = out.lock();
+            writeln!(o, "A {} {} {}", t_idx, i, kind).unwrap();
+            o.flush().unwrap();
+            let v = de_attempt::<T>(vm, x, kind);
+            writeln!(o, "R {} {} {} {}", t_idx, i, kind, v.replace('\n', " ")).unwrap();
+            o.flush().unwrap();
+        }
+    }
+}
+
+type DeResults = std::collections::HashMap<(usize, usize, String), String>;
+
+/// Parent: run the De child to completion, restarting after every crash (stack overflow in `De`
+/// cannot be caught in-process).
+fn collect_de(seed: u64, n: usize) -> DeResults {
+    let mut res = DeResults::new();
+    let mut skip: Vec<(usize, String)> = vec![];
+    let (mut start_t, mut start_v) = (0usize, 0usize);
+    for _round in 0..400 {
+        let cfg = json!({"seed": seed, "n": n, "start_t": start_t, "start_v": start_v,
+            "skip": skip.iter().map(|(t, k)| json!([t, k])).collect::<Vec<_>>()});
+        let e = gv::child::run(&["--child", "de"], cfg.to_string().as_bytes(), std::time::Duration::from_secs(1200));
+        let (done, text) = match &e {
+            gv::child::Exit::Ok(s) => (true, s.clone()),
+            gv::child::Exit::Code(_, s, _) | gv::child::Exit::Signal(_, s, _) | gv::child::Exit::Timeout(s) => (false, s.clone()),
+        };
+        let mut pending: Option<(usize, usize, String)> = None;
+        for line in text.lines() {
+            let mut it = line.splitn(5, ' ');
+            let tag = it.next().unwrap_or("");
+            let t: usize = it.next().and_then(|x| x.parse().ok()).unwrap_or(0);
+            let v: usize = it.next().and_then(|x| x.parse().ok()).unwrap_or(0);
+            let k = it.next().unwrap_or("").to_string();
+            match tag {
+                "A" => pending = Some((t, v, k)),
+                "R" => {
+                    res.insert((t, v, k), it.next().unwrap_or("").to_string());
+                    pending = None;
+                }
+                _ => {}
+            }
+        }
+        if done {
+            break;
+        }
+        match pending {
+            Some((t, v, k)) => {
+                res.insert((t, v, k.clone()), format!("crash: {}", e.class()));
+                // one crash per (type, kind) is enough: skip the rest of that kind for the type
+                skip.push((t, k));
+                start_t = t;
+                start_v = v;
+            }
+            None => break,
+        }
+    }
+    res
+}
+
 /// The serde bridge: `Ser` in, `De` out.
-fn run_serde<T>(cx: &mut Cx)
+fn run_serde<T>(cx: &mut Cx, t_idx: usize, de_res: &DeResults)
 where
     T: Marsh + Serialize + DeserializeOwned,
     T::Type: Sized,
@@ -454,25 +571,21 @@ where
     }
     let vals = values::<T>(cx);
     let vm = cx.vm.clone();
-    let typ = T::make_type(&vm);
     for (i, x) in vals.iter().enumerate() {
         if !selected(cx, &name, i) {
             continue;
         }
         let val = x.val();
         let replay = |op: &str| json!({"type": name, "index": i, "op": op, "val": val});
-        // Ser, then De of what Ser pushed
         let mut ser_ok = false;
-        let pushed = gv::catch(|| -> gluon::vm::Result<(gvw::Gv, Result<gluon::vm::Result<T>, String>)> {
+        let pushed = gv::catch(|| -> gluon::vm::Result<gvw::Gv> {
             let mut ctx = vm.current_context();
             Ser(x.clone()).vm_push(&mut ctx)?;
             let v = ctx.pop();
-            let g = walk(&vm, (*v).clone());
-            let r = gv::catch(|| de::from_value::<T>(&vm, (*v).clone(), &typ));
-            Ok((g, r))
+            Ok(walk(&vm, (*v).clone()))
         });
         let payload = match &pushed {
-            Ok(Ok((g, _))) => {
+            Ok(Ok(g)) => {
                 match x.conforms(g) {
                     Ok(()) => ser_ok = true,
                     Err(blame) => cx.out.oracle_fail(
@@ -509,56 +622,51 @@ where
         cx.out.count("op:ser");
         cx.out.class(format!("ser|{}|{}", name, skeleton(&val)));
         cx.out.case(&format!("ser {}", val), &payload);
-        if let Ok(Ok((_, r))) = &pushed {
-            let verdict = de_verdict(r, x);
-            if cx.verbose {
-                println!("ser->de {:?}", verdict);
-            }
-            if let Err(why) = verdict {
-                // a non type-faithful Ser output is reported above; do not report its consequence twice
-                if ser_ok {
-                    cx.out.oracle_fail(
-                        &format!("serde-rt:{}", fp_of(&why, &name)),
-                        &format!("{}: {} through Ser then De: {}", name, clip(&val), why),
-                        replay("ser-de"),
-                    );
-                } else {
-                    cx.out.count("serde-rt-fails-after-bad-ser");
+        for kind in ["ser-de", "push-de"] {
+            let verdict = if cx.only.is_some() {
+                // replay: one attempt in a child of its own
+                let cfg = json!({"seed": cx.seed, "n": cx.n_random, "start_t": t_idx, "start_v": i, "skip": [], "one": kind});
+                let e = gv::child::run(&["--child", "de"], cfg.to_string().as_bytes(), std::time::Duration::from_secs(300));
+                match &e {
+                    gv::child::Exit::Ok(s) => s.lines().find(|l| l.starts_with("R ")).and_then(|l| l.splitn(5, ' ').nth(4)).unwrap_or("?").to_string(),
+                    _ => format!("crash: {}", e.class()),
                 }
             } else {
-                cx.out.count("op:ser-de-ok");
-            }
-        }
-        // Pushable -> De
-        let r = gv::catch(|| -> gluon::vm::Result<Result<gluon::vm::Result<T>, String>> {
-            let mut ctx = vm.current_context();
-            x.clone().vm_push(&mut ctx)?;
-            let v = ctx.pop();
-            Ok(gv::catch(|| de::from_value::<T>(&vm, (*v).clone(), &typ)))
-        });
-        if let Ok(Ok(r)) = r {
-            let verdict = de_verdict(&r, x);
+                match de_res.get(&(t_idx, i, kind.to_string())) {
+                    Some(v) => v.clone(),
+                    None => {
+                        cx.out.count(&format!("skipped:{}-after-crash", kind));
+                        continue;
+                    }
+                }
+            };
             if cx.verbose {
-                println!("push->de {:?}", verdict);
+                println!("{} {}", kind, verdict);
             }
-            match verdict {
-                Err(why) => cx.out.oracle_fail(
-                    &format!("de:{}", fp_of(&why, &name)),
-                    &format!("{}: De of the marshalled {}: {}", name, clip(&val), why),
-                    replay("push-de"),
-                ),
-                Ok(()) => cx.out.count("op:push-de-ok"),
+            cx.out.count(&format!("op:{}", kind));
+            if verdict == "ok" {
+                cx.out.count(&format!("op:{}-ok", kind));
+                continue;
             }
+            if kind == "ser-de" && !ser_ok {
+                // a non type-faithful Ser output is reported above; do not report its consequence twice
+                cx.out.count("serde-rt-fails-after-bad-ser");
+                continue;
+            }
+            let fp = fp_of(&verdict, T::head());
+            cx.out.oracle_fail(
+                &format!("{}:{}", if kind == "ser-de" { "serde-rt" } else { "de" }, fp),
+                &format!("{}: {} {}: {}", name, clip(&val), if kind == "ser-de" { "through Ser then De" } else { "marshalled, then read with De" }, verdict),
+                replay(kind),
+            );
         }
     }
 }
 
-fn fp_of(why: &str, name: &str) -> String {
-    if why.starts_with("differs") {
-        format!("mismatch:{}", name)
-    } else {
-        why.to_string()
-    }
+/// failure class of a De verdict + head constructor of the requested type (stable across seeds)
+fn fp_of(why: &str, head: &str) -> String {
+    let class = why.split(':').next().unwrap_or("?");
+    format!("{}:{}", class, head)
 }
 
 fn de_verdict<T: Marsh>(r: &Result<gluon::vm::Result<T>, String>, x: &T) -> Result<(), String> {
@@ -592,12 +700,27 @@ where
         vals.push(A::gen(&mut r));
     }
     for x in vals {
-        let res = gv::catch(|| api::convert::<A, B>(&vm, x.clone()));
+        // what `api::convert::<A, B>` does (api/mod.rs:582): push as A, pop, read as B; the panic of
+        // an `ice!` is caught before it unwinds through the context lock (it would poison the VM)
+        let res = gv::catch(|| -> gluon::vm::Result<Result<B, String>> {
+            let mut ctx = vm.current_context();
+            x.clone().vm_push(&mut ctx)?;
+            let v = ctx.pop();
+            Ok(gv::catch(|| B::from_value(&vm, (*v).clone())))
+        });
         let payload = match res {
-            Ok(Ok(y)) => y.val(),
+            Ok(Ok(Ok(y))) => y.val(),
+            Ok(Ok(Err(_))) => "panic".into(),
             Ok(Err(_)) => "error".into(),
             Err(_) => "panic".into(),
         };
+        // and the real `convert` where it cannot panic
+        if payload != "panic" {
+            match gv::catch(|| api::convert::<A, B>(&vm, x.clone())) {
+                Ok(Ok(y)) if y.val() == payload => {}
+                _ => cx.out.oracle_fail("convert:differs", &format!("api::convert {} differs from push+from_value for {}", name, x.val()), json!({"op": "conv"})),
+            }
+        }
         cx.out.count("op:convert");
         cx.out.class(format!("conv|{}|{}", name, payload == "panic"));
         cx.out.case(&format!("conv {} {}", x.val(), B::tcode()), &payload);
@@ -612,6 +735,7 @@ fn run_globals(cx: &mut Cx) {
     let vm = cx.vm.clone();
     let src = r#"
 let { Color, Shape } = import! c11t
+let { Result, Option, Bool, Ordering } = import! std.types
 let o : Option Int = Some 7
 let os : Option String = None
 let r : Result String Int = Ok 3
@@ -739,9 +863,75 @@ let sh : Shape = Rect { w = 3, h = 4 }
     req!(FunctionRef<fn(f64) -> f64>, "Float -> Float".into(), "".into(), |_| "fn".into());
 }
 
+/// The types that also go through the serde bridge (everything except `Ordering`, which has no
+/// serde impls).
+macro_rules! serde_types {
+    ($m:ident) => {
+        // primitives
+        $m!((), u8, i16, i32, i64, u16, u32, u64, usize, isize, f32, f64, bool, char, String);
+        // containers, nesting depth <= 3
+        $m!(
+            Option<i32>, Option<String>, Option<Option<u8>>, Option<Vec<f64>>, Option<()>,
+            Result<i64, String>, Result<Option<bool>, Vec<u8>>, Result<(), ()>,
+            Vec<u8>, Vec<i64>, Vec<u32>, Vec<u64>, Vec<f64>, Vec<f32>, Vec<String>, Vec<bool>, Vec<char>, Vec<()>,
+            Vec<Vec<u8>>, Vec<Vec<i32>>, Vec<Option<i16>>, Vec<(i32, String)>, Vec<Result<u8, f64>>,
+            (i32, String), (u8, f64, bool), (Option<i32>, Vec<String>, (u64, char)), ((), ()), (i16, u16, isize, usize),
+            BTreeMap<String, i32>, BTreeMap<String, Vec<u8>>, Option<BTreeMap<String, String>>, Vec<BTreeMap<String, i32>>,
+            BTreeMap<String, (f32, Option<String>)>,
+        );
+        // derived structs and enums
+        $m!(
+            Point, Rec, Wrap, Pair, Unit, Color, Shape,
+            Vec<Shape>, Vec<Color>, Vec<Unit>, Vec<Point>, Option<Rec>, Result<Shape, Color>, BTreeMap<String, Shape>,
+            (Color, Wrap), Vec<Option<Pair>>, Option<Vec<Wrap>>,
+        );
+    };
+}
+
+fn child_de() {
+    use std::io::Read;
+    let mut inp = String::new();
+    std::io::stdin().read_to_string(&mut inp).unwrap();
+    let cfg: serde_json::Value = serde_json::from_str(&inp).unwrap();
+    let vm = gv::vm::new_vm();
+    gv::quiet_panics();
+    if let Err(e) = vm.load_script("c11t", TYPES_SRC) {
+        eprintln!("c11t: {}", e);
+        std::process::exit(3);
+    }
+    if let Err(e) = vm.run_expr::<OpaqueValue<&Thread, Hole>>("c11_pre", "let _ = import! std.map\nlet _ = import! std.types\n()") {
+        eprintln!("preload: {}", e);
+        std::process::exit(3);
+    }
+    let mut t_idx = 0usize;
+    if let Some(kind) = cfg.get("one").and_then(|k| k.as_str()) {
+        // single attempt (replay)
+        let (st, sv) = (cfg["start_t"].as_u64().unwrap() as usize, cfg["start_v"].as_u64().unwrap() as usize);
+        macro_rules! one { ($($t:ty),* $(,)?) => {$(
+            if t_idx == st {
+                let name = type_name::<$t>();
+                let mut r = Rng::new(cfg["seed"].as_u64().unwrap(), salt(&name));
+                let mut vals = <$t as Marsh>::boundaries();
+                for _ in 0..cfg["n"].as_u64().unwrap() { vals.push(<$t as Marsh>::gen(&mut r)); }
+                println!("R {} {} {} {}", st, sv, kind, de_attempt::<$t>(&vm, &vals[sv], kind));
+            }
+            t_idx += 1;
+        )*}; }
+        serde_types!(one);
+        let _ = t_idx;
+        return;
+    }
+    macro_rules! go { ($($t:ty),* $(,)?) => {$( child_de_type::<$t>(&vm, t_idx, &cfg); t_idx += 1; )*}; }
+    serde_types!(go);
+    let _ = t_idx;
+}
+
 /// Child process: keep a NaN float in a `RootedValue` (what `Pushable::marshal`, `run_expr::<T>` and
 /// `OpaqueValue` do) and drop it.
 fn child(mode: &str) {
+    if mode == "de" {
+        return child_de();
+    }
     let vm = gv::vm::new_vm();
     match mode {
         "nan-marshal" => {
@@ -771,7 +961,7 @@ fn child(mode: &str) {
 }
 
 fn run_children(cx: &mut Cx) {
-    if cx.only.is_some() {
+    if cx.only.as_ref().map_or(false, |o| o.0 != "<child>") {
         return;
     }
     for mode in ["one-marshal", "nan-marshal", "nan-run-expr", "nan-f32-run-expr"] {
@@ -781,7 +971,9 @@ fn run_children(cx: &mut Cx) {
         cx.out.class(format!("child|{}|{}", mode, e.class()));
         if !ok {
             let detail = match &e {
-                gv::child::Exit::Code(_, _, err) | gv::child::Exit::Signal(_, _, err) => norm_err(err.lines().next().unwrap_or("")),
+                gv::child::Exit::Code(_, _, err) | gv::child::Exit::Signal(_, _, err) => norm_err(
+                    err.lines().find(|l| l.contains("Rooted value") || l.contains("panicked")).unwrap_or(""),
+                ),
                 gv::child::Exit::Ok(s) => s.trim().to_string(),
                 gv::child::Exit::Timeout(_) => "timeout".into(),
             };
@@ -809,7 +1001,10 @@ fn main() {
             seed = s;
         }
         let case = v.get("case").cloned().unwrap_or(v.clone());
-        if let (Some(t), Some(i)) = (case.get("type").and_then(|t| t.as_str()), case.get("index").and_then(|i| i.as_u64())) {
+        if case.get("op").and_then(|o| o.as_str()) == Some("child") {
+            only = Some(("<child>".to_string(), 0));
+            println!("replaying the RootedValue/NaN child processes");
+        } else if let (Some(t), Some(i)) = (case.get("type").and_then(|t| t.as_str()), case.get("index").and_then(|i| i.as_u64())) {
             only = Some((t.to_string(), i as usize));
             println!("replaying {} value #{} (op {})", t, i, case.get("op").and_then(|o| o.as_str()).unwrap_or("?"));
         }
@@ -827,28 +1022,13 @@ fn main() {
     let verbose = only.is_some();
     let mut cx = Cx { vm, out: Out::new(&args.out), seed, n_random: tier_n, only, verbose };
 
-    macro_rules! both { ($($t:ty),* $(,)?) => {$( run_type::<$t>(&mut cx); run_serde::<$t>(&mut cx); )*}; }
+    let de_res = if cx.only.is_none() { collect_de(seed, tier_n) } else { DeResults::new() };
+    let mut t_idx = 0usize;
+    macro_rules! both { ($($t:ty),* $(,)?) => {$( run_type::<$t>(&mut cx); run_serde::<$t>(&mut cx, t_idx, &de_res); t_idx += 1; )*}; }
     macro_rules! plain { ($($t:ty),* $(,)?) => {$( run_type::<$t>(&mut cx); )*}; }
-    // primitives
-    both!((), u8, i16, i32, i64, u16, u32, u64, usize, isize, f32, f64, bool, char, String);
-    plain!(Ordering);
-    // containers, nesting depth <= 3
-    both!(
-        Option<i32>, Option<String>, Option<Option<u8>>, Option<Vec<f64>>, Option<()>,
-        Result<i64, String>, Result<Option<bool>, Vec<u8>>, Result<(), ()>,
-        Vec<u8>, Vec<i64>, Vec<u32>, Vec<u64>, Vec<f64>, Vec<f32>, Vec<String>, Vec<bool>, Vec<char>, Vec<()>,
-        Vec<Vec<u8>>, Vec<Vec<i32>>, Vec<Option<i16>>, Vec<(i32, String)>, Vec<Result<u8, f64>>,
-        (i32, String), (u8, f64, bool), (Option<i32>, Vec<String>, (u64, char)), ((), ()), (i16, u16, isize, usize),
-        BTreeMap<String, i32>, BTreeMap<String, Vec<u8>>, Option<BTreeMap<String, String>>, Vec<BTreeMap<String, i32>>,
-        BTreeMap<String, (f32, Option<String>)>,
-    );
-    plain!(Vec<Ordering>, (Ordering, bool), Option<Ordering>);
-    // derived structs and enums
-    both!(
-        Point, Rec, Wrap, Pair, Unit, Color, Shape,
-        Vec<Shape>, Vec<Color>, Vec<Unit>, Vec<Point>, Option<Rec>, Result<Shape, Color>, BTreeMap<String, Shape>,
-        (Color, Wrap), Vec<Option<Pair>>, Option<Vec<Wrap>>,
-    );
+    serde_types!(both);
+    plain!(Ordering, Vec<Ordering>, (Ordering, bool), Option<Ordering>);
+    let _ = t_idx;
     // cross-type reads (the `as` casts)
     macro_rules! conv { ($($a:ty => $b:ty),* $(,)?) => {$( run_conv::<$a, $b>(&mut cx); )*}; }
     conv!(i64 => i16, i64 => i32, i64 => u16, i64 => u32, i64 => u64, i64 => usize, i64 => isize, i64 => char,
